@@ -445,8 +445,11 @@ def phase_tracemeta(ctx, phase):
         if v["verdict"] != "ok":
             e = t[v["step"] - 1]
             ctx.failures.append(dict(clause="trace-" + v["verdict"], backend=e.get("backend", "?"), step=v["step"], tainted=False, src=[], srcidx=0,
-                                     detail=f"trace {e['tid']} step {v['step']} verb {e['verb']}: logged names {e['names']} part {e['part']} sql {e['sql']}; "
-                                            f"CacheModel expects names {v.get('expected')}",
+                                     detail=(f"trace {e['tid']} step {v['step']} verb {e['verb']}: columns {e['names']} have type families {e.get('dts')}; "
+                                             f"the frame rule / the static types require {v.get('expected')} ('?' = defined by the verb)"
+                                             if v["verdict"] in ("dtype", "export-dtype") else
+                                             f"trace {e['tid']} step {v['step']} verb {e['verb']}: logged names {e['names']} part {e['part']} sql {e['sql']}; "
+                                             f"CacheModel expects names {v.get('expected')}"),
                                      moves=[dict(v=x["verb"], i=x["in"]) for x in t[: v["step"]] if x["verb"] != "source"], heap_obs=[],
                                      beh=dict(trace=t[: v["step"]], verdict=v)))
     ctx.behaviours += len(traces) - (1 if canary_idx else 0)
